@@ -272,10 +272,21 @@ func (R *Repository) addNewEmptyEntry(loader crlloader.CRLLoader, identifier str
 	}
 	//if this is persistent store it might be present already
 	if store.IsEmpty() == false {
-		newEntry.Loaded = true
+		newEntry.Loaded = R.isPersistedCRLAcceptable(store)
 	}
 	R.crlRepository[identifier] = &newEntry
 	return &newEntry, nil
+}
+
+// isPersistedCRLAcceptable decides if a crl which was found in a persistent store counts as loaded.
+// With signature validation mode verify this is only the case if the certificate which verified the crl was stored with it:
+// a crl which was stored by an earlier run with another signature validation mode was never verified and has to be loaded again
+func (R *Repository) isPersistedCRLAcceptable(store crlstore.CRLStore) bool {
+	if R.crlConfig.SignatureValidationModeParsed != config.SignatureValidationModeVerify {
+		return true
+	}
+	_, err := store.GetCRLSignatureCert()
+	return err == nil
 }
 
 func (R *Repository) createTempFile() (string, error) {
